@@ -45,6 +45,20 @@ class Obligation:
         self.trivial = False
 
     def build(self):
+        if self.mode == 'z3':
+            # assumptions / goal are z3 formulas already (polynomial domain)
+            s = z3.Solver()
+            for a in self.assumptions:
+                s.add(a)
+            g = self.goal
+            if isinstance(g, bool):
+                g = z3.BoolVal(g)
+                self.trivial = True
+            s.add(z3.Not(g) if self.expect == 'unsat' else g)
+            self._solver = s
+            self.smt = s.to_smt2().replace('(set-info :status unknown)\n', '') + '(get-model)\n'
+            self.hash = hashlib.sha256(self.smt.encode()).hexdigest()[:16]
+            return self
         goal = True if (self.goal is None) else self.goal
         neg = tm.bnot(goal) if self.expect == 'unsat' else goal
         if self.int_goal is not None:
